@@ -321,6 +321,32 @@ def _r2(repo, L, m, ba, ovr):
                     if isinstance(a, ast.FunctionDef):
                         break
                 best = max(mins) if mins else 0
+
+                def _site_min(node_):
+                    ms_ = [0]
+                    for a_ in ancestors(node_):
+                        if isinstance(a_, ast.If) and any(contains(s_, node_) for s_ in a_.body):
+                            for t_ in [a_.test, *(a_.test.values if isinstance(a_.test, ast.BoolOp) and isinstance(a_.test.op, ast.And) else [])]:
+                                g_ = _guard_min_owners(t_)
+                                if g_ is not None:
+                                    ms_.append(g_)
+                        if isinstance(a_, ast.FunctionDef):
+                            break
+                    return max(ms_)
+
+                if best < 2 and isinstance(c.func.value, ast.Name):
+                    # deferred form: `fix = None` ... `fix = <premise>` under the owner-count guards ... `if fix is not None:
+                    # fix.apply()` -- the guards of the places where the premise was chosen count
+                    rv_ = c.func.value.id
+                    not_none = any(
+                        isinstance(a_, ast.If) and any(contains(s_, c) for s_ in a_.body) and norm(a_.test) in (f"{rv_} is not None", rv_, f"{rv_} != None")
+                        for a_ in ancestors(c)
+                    )
+                    defs_ = [n_ for n_ in ast.walk(f.node) if isinstance(n_, ast.Assign) and len(n_.targets) == 1 and is_name(n_.targets[0], rv_)]
+                    other_stores = [n_ for n_ in ast.walk(f.node) if isinstance(n_, ast.Name) and n_.id == rv_ and isinstance(n_.ctx, ast.Store) and not any(n_ is d_.targets[0] for d_ in defs_)]
+                    chosen = [d_ for d_ in defs_ if not (isinstance(d_.value, ast.Constant) and d_.value.value is None)]
+                    if not_none and chosen and len(chosen) < len(defs_) and not other_stores:
+                        best = max(best, min(_site_min(d_) for d_ in chosen))
                 if best < 2 and isinstance(c.func.value, ast.Name):
                     # the premise may have been chosen by a helper that carries the owner-count guard itself
                     ds = local_defs(f, c.func.value.id)
@@ -865,15 +891,26 @@ def _r5(repo, L, m, ba):
     fv = lp.target.elts[1].id
     okp, whyp = True, ""
     seen = set()
+    map_exprs = []
     for p in PathEnum((0, 1), exc_edges=False).block(lp.body):
         unseen = None
+        if p.status == "raise":
+            continue  # the run ends in an error: nothing is written, which the property allows
         for e in p.events:
             if e.kind == "cond":
                 for t, v in cond_facts(e.node, e.val):
                     tt = norm(t).replace(" ", "")
-                    if tt.endswith(f".get({fv}.key_tuple)") or tt.startswith(f"{fv}.key_tuplein"):
+                    if tt.endswith(f".get({fv}.key_tuple)"):
                         unseen = not v
-        adds = [c for _, c in path_calls(p, lambda c: isinstance(c.func, ast.Attribute) and c.func.attr == "add_row" and c.args and is_name(c.args[0], fv))]
+                    elif isinstance(t, ast.Compare) and len(t.ops) == 1 and norm(t.left) == f"{fv}.key_tuple" and isinstance(t.ops[0], ast.In | ast.NotIn):
+                        unseen = (not v) if isinstance(t.ops[0], ast.In) else v
+                        map_exprs.append(t.comparators[0])
+        adds = [c for _, c in path_calls(p, lambda c: isinstance(c.func, ast.Attribute) and c.func.attr in ("add_row", "append") and c.args and is_name(c.args[0], fv))]
+        if not adds:
+            # the fragment handed to something else on this path (a helper, another container): not the form the rule reads
+            handed = [c for _, c in path_calls(p, lambda c: any(is_name(a_, fv) for a_ in [*c.args, *[k_.value for k_ in c.keywords]]))]
+            if handed:
+                raise AnalysisError(f"{addm.short}: a left-over fragment is passed to '{norm(handed[0])[:50]}' instead of being added as a row: form not understood")
         if p.status not in ("fall", "continue"):
             okp, whyp = False, f"re-add loop leaves an iteration with {p.status}"
         if unseen is True:
@@ -885,6 +922,9 @@ def _r5(repo, L, m, ba):
             if adds:
                 okp, whyp = False, "a contig that was already placed is re-added: duplicated"
         else:
+            conds_on_frag = [e for e in p.events if e.kind == "cond" and any(isinstance(x, ast.Name) and x.id == fv for x in ast.walk(e.node))]
+            if conds_on_frag:
+                raise AnalysisError(f"{addm.short}: whether a fragment is re-added is decided by '{norm(conds_on_frag[0].node)[:60]}', not by a lookup of its key in the found map: form not understood")
             okp, whyp = False, "re-add decision does not depend on the found map keyed by (name, start, end)"
     if seen != {"unseen", "seen"}:
         okp, whyp = False, whyp or "found / not-found branches not both present"
@@ -893,6 +933,8 @@ def _r5(repo, L, m, ba):
     for c in walk_shallow(lp):
         if isinstance(c, ast.Call) and isinstance(c.func, ast.Attribute) and c.func.attr == "get" and c.args and norm(c.args[0]) == f"{fv}.key_tuple":
             mapv = c.func.value
+    if mapv is None and map_exprs:
+        mapv = map_exprs[0]
     if isinstance(mapv, ast.Name):
         src = [norm(n.value) for n in walk_shallow(addm.node) if isinstance(n, ast.Assign) and is_name(n.targets[0], mapv.id)]
     else:
